@@ -68,7 +68,7 @@ func CloneV1(t types.Transaction) types.Transaction {
 func CloneV2(t types.V2Transaction) types.V2Transaction {
 	c := t
 	cp := func(sp types.SatisfiedPolicy) types.SatisfiedPolicy {
-		return types.SatisfiedPolicy{Policy: sp.Policy, Signatures: append([]types.Signature(nil), sp.Signatures...), Preimages: append([][32]byte(nil), sp.Preimages...)}
+		return types.SatisfiedPolicy{Policy: ClonePolicy(sp.Policy), Signatures: append([]types.Signature(nil), sp.Signatures...), Preimages: append([][32]byte(nil), sp.Preimages...)}
 	}
 	c.SiacoinInputs = append([]types.V2SiacoinInput(nil), t.SiacoinInputs...)
 	for i := range c.SiacoinInputs {
@@ -708,4 +708,31 @@ func (a *Adv) KindConfusionProbes() int {
 	}
 	_ = bb
 	return n
+}
+
+// ClonePolicy deep-copies a spend policy (sub-policy slices, unlock keys and key bytes).
+func ClonePolicy(p types.SpendPolicy) types.SpendPolicy {
+	switch t := p.Type.(type) {
+	case types.PolicyTypeThreshold:
+		of := make([]types.SpendPolicy, len(t.Of))
+		for i := range t.Of {
+			of[i] = ClonePolicy(t.Of[i])
+		}
+		if t.Of == nil {
+			of = nil
+		}
+		return types.SpendPolicy{Type: types.PolicyTypeThreshold{N: t.N, Of: of}}
+	case types.PolicyTypeUnlockConditions:
+		uc := types.UnlockConditions(t)
+		keys := make([]types.UnlockKey, len(uc.PublicKeys))
+		for i, k := range uc.PublicKeys {
+			keys[i] = types.UnlockKey{Algorithm: k.Algorithm, Key: append([]byte(nil), k.Key...)}
+		}
+		if uc.PublicKeys == nil {
+			keys = nil
+		}
+		uc.PublicKeys = keys
+		return types.SpendPolicy{Type: types.PolicyTypeUnlockConditions(uc)}
+	}
+	return p
 }
